@@ -1,6 +1,6 @@
 """C04 - all language outputs of the compiler describe the same wire format (partial claim)."""
 from engine.runner import Obligation
-from props.compilers_common import DESCRIPTORS, GOOD
+from props.compilers_common import DESCRIPTORS, GOOD, ALL_GOOD
 from harness_meta import CMP_STUBS as STUBS  # noqa: F401
 from props.c15 import ENC
 
@@ -13,7 +13,7 @@ ASSUMPTIONS = [
 
 
 def obligations(tier):
-    shards = [dict(DESCRIPTORS[k], name=k, wellformed=1) for k in GOOD]
+    shards = [dict(ALL_GOOD[k], name=k, wellformed=1) for k in ALL_GOOD]
     return [
         Obligation("native_type_tables_agree", "harness.c04_tables", "tables", [{}], kind="script", cond_timeout=120, encoded=ENC,
                    bounds="the 27 native type names x 7 tables (parser sizes, parser ctypes table, python ctypes map, python descriptor map, C map measured with gcc, MATLAB map, JavaScript map)",
